@@ -105,6 +105,11 @@ CHECKS["C12"] = ("model_checking",
     "One-group-at-a-time variations around two base configurations: 7 AE-title shapes (1 char, 16 chars, padded, inner space, over 16 with padding, 17 chars, spaces only), 1/2/3/127/128/129 contexts in three shapes, maximum lengths 0/16382/2^32-1/1, all 32 subsets of extended-negotiation kinds, version name present/absent/16 chars, four acceptor support shapes (incl. role-based rejection): structure, counts, ids, UID/AE legality of every RQ and AC sent.",
     "Trusted: EVT_DATA_SENT/RECV capture; configurations the API refuses are outside the quantifier; full product only sampled (thorough).", "§6 C12", "pdu")
 
+CHECKS["C03"] = ("model_checking",
+    "TLA+ Framing spec (peer writes in arbitrary pieces / closes after any byte, kernel hands over any part, reader collects header then body) model-checked by TLC for every interleaving; TLC's write patterns and close points, mapped class-preservingly onto real PDU lengths, plus every single cut / close offset, are played over TCP loopback to a real acceptor and a real requestor (S2C); the PDUs and FSM events pynetdicom reports are judged by the Trace_Framing spec (C2S)",
+    "Small frames with up to 2 (3) cuts and every reader interleaving in TLC; on the real code: a stream of three P-DATA-TF PDUs (one C-ECHO-RQ in three command fragments) plus A-RELEASE-RQ, the A-ASSOCIATE-RQ, and the A-ASSOCIATE-AC towards a requestor: all single cuts, all close offsets, TLC's double-cut patterns, gaps of 3 ms and of 0.6-0.7 s (beyond connection_timeout, inside the protocol timeouts): PDUs delivered in order, each once, byte-identical; a close inside a PDU gives Evt17 and never Evt19.",
+    "Trusted: loopback TCP with TCP_NODELAY and pauses (the kernel may coalesce); PDU lengths up to a few hundred bytes.", "§6 C03", "framing")
+
 NOT_YET = {}
 
 
